@@ -123,6 +123,9 @@ func replayStore(o *out, lines []string) {
 			m.st.Remove(parseName(fl[1]), fl[2] == "1")
 			b.st.Remove(parseName(fl[1]), fl[2] == "1")
 			recheckHeld(o, held, "Remove")
+		case "PUTRAW":
+			o.pf("%s\n", l)
+			b.bolt.VerifPutRaw(parseName(fl[1]), unhx(fl[2]))
 		case "REMOVEM":
 			o.pf("%s\n", l)
 			m.st.Remove(parseName(fl[1]), fl[2] == "1")
